@@ -375,7 +375,9 @@ func vrfC10ServerScript(h *vrfSrv, rng *rand.Rand, d *vrfC10Desc) {
 				rd = "+" + appCmd(st)
 			}
 			if st.cliEnded {
-				what = "app" + rd + "@"
+				if rd != "" {
+					what = "read@"
+				}
 				break
 			}
 			sendData(st, 1+rng.IntN(4), true)
@@ -895,7 +897,7 @@ func vrfC10ClientScript(h *vrfCli, rng *rand.Rand, d *vrfC10Desc) {
 	}
 	// in a part of the sessions the server says GOAWAY before the wind-down, naming a last
 	// stream id below a request that is still in progress
-	if !h.dead && !goneAway && rng.IntN(5) == 0 {
+	if !h.dead && !goneAway && rng.IntN(3) == 0 {
 		late, force = true, "after-goaway"
 		clean, _, _ := live()
 		for i := len(clean) - 1; i >= 0; i-- {
